@@ -94,6 +94,26 @@ func c09Run(c *fw.Case, env *fw.Env) *fw.Obs {
 			}
 		}
 	}
+	if p.OtherTrack && p.Op == "push" {
+		// what another remote has is no evidence of what this one has
+		if lh, err := w.localHandle(); err == nil {
+			n := 0
+			for _, pl := range w.plans {
+				if pl.Remote < 0 {
+					continue
+				}
+				if a := pickByRelation(rng, w.h, pl.Remote, "remote-ahead"); a >= 0 && objects.CommitExist(lh.DB, w.h.sums[a]) {
+					ref.SaveRef(lh.RS, "remotes/upstream/"+strings.TrimPrefix(pl.Name, "tag:"), w.h.sums[a], "setup", "s@x", "setup", "fetched from elsewhere", nil)
+					n++
+				}
+			}
+			lh.Close()
+			if n > 0 {
+				class += "/tracking-refs-of-another-remote"
+				o.Ev("pushes_with_tracking_refs_of_another_remote", 1)
+			}
+		}
+	}
 	if p.ShallowLocal > 0 && p.Op == "push" {
 		// a shallow clone: some commits below the tips have no table locally
 		if lh, err := w.localHandle(); err == nil {
@@ -443,6 +463,10 @@ func init() {
 			}
 			for i := 0; i < 6; i++ {
 				l.Add("push", netParams{Op: "push", N: 7 + i%4, BaseRows: 4, Branches: 1, Rel: "new", ShallowLocal: 1 + i%2}, int64(2500+i))
+			}
+			// fixed: first push to a remote that has no ref yet, from a repository that tracks another remote
+			for i := 0; i < 8; i++ {
+				l.Add("push", netParams{Op: "push", N: 6 + i%5, BaseRows: 4, Branches: 1 + i%2, Rel: "new", OtherTrack: true, MaxPack: packs[i%len(packs)]}, int64(2550+i))
 			}
 			// fixed: a branch and a tag of the same name sent to one destination by two refspecs
 			for i := 0; i < 8; i++ {
